@@ -10,8 +10,24 @@ from typing import Any, Dict, List, Optional, Tuple
 # --------------------------------------------------------------------------
 # type-strict JSON value comparison
 # --------------------------------------------------------------------------
+class _TooDeep(Exception):
+    pass
+
+
+_DEEP = 150
+
+
 def tagged(v: Any) -> Any:
-    """Canonical type-tagged form: 1 != 1.0 != True, -0.0 != 0.0, dict order ignored."""
+    """Canonical type-tagged form: 1 != 1.0 != True, -0.0 != 0.0, dict order ignored.
+    Values nested deeper than _DEEP levels get a flat (iteratively built) canonical form instead, so that
+    neither building nor comparing them recurses; which form is used depends on the value alone."""
+    try:
+        return _tagged(v, 0)
+    except _TooDeep:
+        return ("deep", _flat(v))
+
+
+def _tagged(v: Any, d: int) -> Any:
     if v is None:
         return ("null",)
     if isinstance(v, bool):
@@ -24,11 +40,40 @@ def tagged(v: Any) -> Any:
         return ("float", repr(v))
     if isinstance(v, str):
         return ("str", v)
+    if d > _DEEP:
+        raise _TooDeep
     if isinstance(v, (list, tuple)):
-        return ("list", tuple(tagged(x) for x in v))
+        return ("list", tuple(_tagged(x, d + 1) for x in v))
     if isinstance(v, dict):
-        return ("dict", tuple(sorted(((str(k), tagged(x)) for k, x in v.items()))))
+        return ("dict", tuple(sorted(((str(k), _tagged(x, d + 1)) for k, x in v.items()))))
     return ("other", type(v).__name__, repr(v))
+
+
+def _flat(v: Any) -> Tuple:
+    out: List[Any] = []
+    stack: List[Any] = [("v", v)]
+    while stack:
+        kind, x = stack.pop()
+        if kind == "t":
+            out.append(x)
+            continue
+        if isinstance(x, (list, tuple)):
+            out.append(("[", len(x)))
+            stack.append(("t", ("]",)))
+            for item in reversed(x):
+                stack.append(("v", item))
+        elif isinstance(x, dict):
+            keys = sorted(x, key=str)
+            out.append(("{", len(keys)))
+            stack.append(("t", ("}",)))
+            for k in reversed(keys):
+                stack.append(("v", x[k]))
+                stack.append(("t", ("key", str(k))))
+        elif x is None or isinstance(x, (bool, int, float, str)):
+            out.append(_tagged(x, 0))
+        else:
+            out.append(("other", type(x).__name__))
+    return tuple(out)
 
 
 def strict_eq(a: Any, b: Any) -> bool:
